@@ -84,30 +84,41 @@ def run(ck, facts, tier):
         pos = [c for c in calls(add.thir, "Iterator::position")]
         ok_pos = bool(pos) and mentions_field(pos[0]["args"][0], "free_vars")
         clos = facts.closures_of(add)
+
+        # the not-found path: some block (the closure given to unwrap_or_else, or the `None` arm of a match on the position) reads
+        # len(), then pushes, and yields the length read before the push
+        def append_block(blk):
+            blk = peel(blk)
+            if not (isinstance(blk, dict) and blk.get("k") == "block"):
+                return False
+            stmts = blk.get("stmts") or []
+            lets = [st for st in stmts if st.get("k") == "let" and st.get("init") is not None and any(True for _ in calls(st["init"], "Vec::len"))]
+            pidx = [i for i, st in enumerate(stmts) if any(True for _ in calls(st, "Vec::push"))]
+            tail = peel(blk.get("expr")) if blk.get("expr") else None
+            return bool(lets and pidx and tail and tail.get("k") == "var" and tail["n"] == lets[0]["pat"].get("n") and stmts.index(lets[0]) < min(pidx))
         push_ok = False
+        not_found_only = False
         for cl in clos:
-            th = cl.thir
-            lens = [c for c in calls(th, "Vec::len") if mentions_field(c, "free_vars")]
-            pushes = [c for c in calls(th, "Vec::push") if mentions_field(c["args"][0], "free_vars")]
-            if lens and pushes:
-                # the closure's value is the variable bound to the len() call
-                blk = peel(th)
-                if blk.get("k") == "block":
-                    lets = [s for s in blk["stmts"] if s.get("k") == "let" and s.get("init") is not None
-                            and any(True for _ in calls(s["init"], "Vec::len"))]
-                    tail = peel(blk.get("expr")) if blk.get("expr") else None
-                    if lets and tail and tail.get("k") == "var" and tail["n"] == lets[0]["pat"].get("n"):
-                        # len must be read before the push
-                        idx_len = blk["stmts"].index(lets[0])
-                        idx_push = min(i for i, s in enumerate(blk["stmts"]) if any(True for _ in calls(s, "Vec::push")))
-                        push_ok = idx_len < idx_push
-        uoe = has_call(add.thir, "Option::unwrap_or_else")
-        if ok_pos and push_ok and uoe:
-            ck.ok(R, "Canonicalizer::add:position-or-append", "position() over free_vars, else len() then push")
+            if cl.thir is not None and append_block(cl.thir):
+                push_ok = True
+                not_found_only = has_call(add.thir, "Option::unwrap_or_else") or has_call(add.thir, "Option::map_or_else")
+        if not push_ok:
+            from core import iflet_as_match
+            for m_ in walk(add.thir):
+                if m_.get("k") == "if":
+                    m_ = iflet_as_match(m_) or m_
+                if m_.get("k") == "match" and "Option<usize>" in str(m_.get("sty", "")):
+                    arms = select_arms(m_, V("None"))
+                    if arms and append_block(m_["arms"][arms[0][0]]["body"]):
+                        push_ok = True
+                        some = select_arms(m_, V("Some"))
+                        not_found_only = bool(some) and not has_call(m_["arms"][some[0][0]]["body"], "Vec::push")
+        if ok_pos and push_ok and not_found_only:
+            ck.ok(R, "Canonicalizer::add:position-or-append", "position() over free_vars; only when absent: len() then push, yielding that len")
         else:
             ck.violation(R, "Canonicalizer::add:position-or-append", add.where(),
-                         "add() no longer has the shape `free_vars.position(..).unwrap_or_else(|| {let i = len(); push; i})` "
-                         "(position=%s append=%s unwrap_or_else=%s)" % (ok_pos, push_ok, uoe))
+                         "add() must return the position of a variable already seen and otherwise append it and return its new index "
+                         "(position=%s append-block=%s only-when-absent=%s)" % (ok_pos, push_ok, not_found_only))
     for kind in KINDS:
         key = "<chalk_solve::infer::canonicalize::Canonicalizer as chalk_ir::fold::TypeFolder>::fold_inference_%s" % kind
         b = need_body(ck, facts, R, key)
@@ -161,11 +172,12 @@ def run(ck, facts, tier):
     uc = need_body(ck, facts, R, "chalk_solve::infer::InferenceTable::u_canonicalize")
     if uc:
         n1 = dominated_by_calls(ck, R, uc, "try_fold_with", "visit_with", "try_fold_with(UMapToCanonical)", "visit_with(UCollector)")
-        n2 = dominated_by_calls(ck, R, uc, "try_fold_with", "Iterator::next", "try_fold_with(UMapToCanonical)", "the loop over value0.binders")
+        n2 = dominated_by_calls(ck, R, uc, "try_fold_with", ("Iterator::next", "Iterator::for_each"), "try_fold_with(UMapToCanonical)", "the iteration over value0.binders")
         ck.floor(R, "u_canonicalize.fold-sites", min(n1, n2), 1)
         # the binder loop iterates value0.binders
-        adds = [c for c in calls(uc.thir, "UniverseMapExt::add")]
-        if adds and any(mentions_field(m, "binders") for m in walk(uc.thir) if m.get("k") in ("match", "loop", "call")):
+        uth = facts.thir("chalk_solve::infer::InferenceTable::u_canonicalize")       # closures spliced in
+        adds = [c for c in calls(uth, "UniverseMapExt::add")]
+        if adds and any(mentions_field(m, "binders") for m in walk(uth) if m.get("k") in ("match", "loop", "call")):
             ck.ok(R, "u_canonicalize:binders-collected")
         else:
             ck.violation(R, "u_canonicalize:binders-collected", uc.where(), "binder universes are not added to the universe map")
